@@ -18,9 +18,9 @@ except ImportError:      # imported with tools/props on sys.path
 
 PROP = "C19"
 LEVEL = "proof"
-GEN_UNITS = ["GenUtils", "GenUtils2", "GenUtils3", "GenUtils3b", "GenMethods3", "GenKtensor4", "GenSptensor4"]
-COQ_TARGETS = ["Props/C19.vo", "Props/C19W4K.vo", "Props/C19W5.vo", "Props/C19W5K.vo", "Props/C19W5S.vo", "Model/Harness.vo", "Props/W3C19.vo", "Props/W3C19b.vo"]
-THEOREM_FILES = ["Props/C19.v", "Props/C19W4K.v", "Props/C19W5.v", "Props/C19W5K.v", "Props/C19W5S.v", "Props/W3C19.v", "Props/W3C19b.v"]
+GEN_UNITS = ["GenUtils", "GenUtils2", "GenUtils3", "GenUtils3b", "GenMethods3", "GenKtensor4", "GenKtensor4b", "GenSptensor4"]
+COQ_TARGETS = ["Props/C19.vo", "Props/C19W4K.vo", "Props/C19W5.vo", "Props/C19W5K.vo", "Props/C19W5S.vo", "Props/C19W5F.vo", "Model/Harness.vo", "Props/W3C19.vo", "Props/W3C19b.vo"]
+THEOREM_FILES = ["Props/C19.v", "Props/C19W4K.v", "Props/C19W5.v", "Props/C19W5K.v", "Props/C19W5S.v", "Props/C19W5F.v", "Props/W3C19.v", "Props/W3C19b.v"]
 COQ_IMPORTS = ("From Coq Require Import List ZArith Bool.\n"
                "From PV Require Import Np.NpZ Np.NpZ2 Gen.GenUtils Gen.GenUtils2 Model.C19Guards.\nLocal Open Scope Z_scope.\n")
 RULE = ("malformed stream: per operation and per precondition, descriptors violating exactly that precondition over a pool of "
@@ -43,9 +43,9 @@ EXPLANATION = ("Theorems: for every covered operation guard_<op> (transliteratio
                "pyttb_utils.py on this run; linear indices go through the regenerated tt_ind2sub, matricisations through the regenerated "
                "gather_wrap_dims; the first step of every mttkrp is bridged to the regenerated get_mttkrp_factors) rejects exactly when pre_<op> fails (guard = decide pre, for all arguments); where the "
                "code is still weaker (known findings A-28, C19-N11, C19-N18; new C19-N27 sptensor.scale with a numpy vector on a receiver "
-               "without entries, C19-N28 tensor.ttsv on a non-cubical tensor with the element count of a cubical one) the full statement is refuted by a witness, "
+               "without entries, C19-N28 tensor.ttsv on a non-cubical tensor with the element count of a cubical one, C19-N29 ttensor.reconstruct with negative / repeated modes) the full statement is refuted by a witness, "
                "the partial version is proved and the answered set is characterised exactly (C19_tenmat_ctor_exact/_gap, "
-               "C19_from_aggregator_no_rows, C19_sptensor_scale_arr_exact/_gap, C19_ttsv_partial/_answers_wf); ktensor.update and sptensor.permute are "
+               "C19_from_aggregator_no_rows, C19_sptensor_scale_arr_exact/_gap, C19_ttsv_partial/_answers_wf, C19_reconstruct_exact/_gap); ktensor.update and sptensor.permute are "
                "proved over the WHOLE methods regenerated from source (C19_ktensor_update_gen: the two-pass method raises exactly when the guard "
                "rejects, and never after its first assignment; C19_sptensor_permute_gen); the argument checks of sptensor.from_aggregator are the regenerated tt_subscheck / tt_valscheck / "
                "tt_sizecheck and the mode check of ktensor.redistribute is proved over the regenerated method (C19_mode_redistribute_gen). "
@@ -57,7 +57,9 @@ ASSUMPTIONS = ["which exception type is raised is not part of the property and i
                "guard_<op> is a hand transliteration of the checks (tied to the code by the correspondence stream only), except for the "
                "helpers translated from source that the guards call or are bridged to: tt_dimscheck, gather_wrap_dims, tt_ind2sub, "
                "tt_subscheck / tt_valscheck / tt_sizecheck (from_aggregator), get_mttkrp_factors, ktensor.redistribute / permute / arrange / "
-               "extract / update, sptensor.permute (whole methods; the bridges of the last six are w4/w5-translator's)",
+               "extract / update / from_vector, sptensor.permute (whole methods; the bridges of the last seven are w4/w5-translator's)",
+               "ttensor.reconstruct has an empty docstring: the precondition is the property's own clause on mode arguments (distinct modes of the tensor) "
+               "plus the written test len(samples) == len(modes)",
                "tensor.ttsv: only the default algorithm (version None / 2); the stated precondition is the source comment 'Sizes of all modes must be "
                "the same' + skip_dim a mode + a vector of the modes' length whenever a mode is multiplied; sptensor.scale with an array: 1-d vectors only",
                "values of operands are fixed small integers: rejection is assumed to depend on shapes/lengths/modes/options; "
